@@ -1,4 +1,5 @@
 CONFIG = {
+    "gens": [],
     "level": "proof",
     "evidence_keys": ["traces"],
     "passes": [
